@@ -124,7 +124,7 @@ def _ops_for(st, rng):
     if name == "setitem":
         return {"name": name, "c": c, "i": 1 + rng.randrange(2), "x": x}
     if name == "reorder":
-        return {"name": name, "x": x, "i": rng.randrange(3)}
+        return {"name": name, "x": x, "i": rng.randrange(-2, 3)}
     return {"name": "rename", "x": x, "n": rng.choice(["a", "b", "none", "empty"])}
 
 
